@@ -222,7 +222,11 @@ func (m *moveMem) Reallocate(size uint64) []byte {
 				return nil
 			}
 		}
-		rawMunmap(m.resv, m.total)
+		// mremap released [base, base+size) of the old reservation: that address range may already
+		// belong to somebody else (the Go runtime maps memory concurrently), so only the two parts
+		// that are still ours are unmapped - never the whole old reservation.
+		rawMunmap(m.resv, guardBytes)
+		rawMunmap(m.base+uintptr(m.size), m.total-guardBytes-m.size)
 	}
 	if size > m.size {
 		if err := rawMprotect(nb+uintptr(m.size), size-m.size, protRW); err != nil {
